@@ -172,6 +172,8 @@ pub struct Mon {
     ever_stalled: bool,
     finished_by_itself: bool,
     pub fails: Vec<(String, String)>,
+    /// design observations (reported under the signature prefix "note-C10", never a violation)
+    pub notes: Vec<String>,
 }
 
 impl Mon {
@@ -189,6 +191,7 @@ impl Mon {
             ever_stalled: false,
             finished_by_itself: false,
             fails: vec![],
+            notes: vec![],
         }
     }
     fn fail(&mut self, prop: &str, what: String) {
@@ -299,9 +302,11 @@ impl Mon {
                     self.fail("C10", "short result although a known candidate was never contacted".into());
                 }
             }
-            // the literal reading: every initial candidate handed to the lookup
+            // design observation (not a violation, signature prefix "note-C10"): with_config keeps only
+            // the first num_results seeds it is given; the others never enter the lookup
             if self.initial_all.iter().any(|(k, _)| !self.contacted.contains(k)) {
-                self.fail("note-C10", "short result although an initial candidate (dropped by take(num_results)) was never contacted".into());
+                hist.add("note:short_result_with_seed_dropped_by_take(num_results)");
+                self.notes.push("observation: short result while a seed beyond the first num_results (dropped by take(num_results)) was never contacted".to_string());
             }
         } else if by_itself {
             hist.add("result:full_finished_by_itself");
@@ -764,6 +769,9 @@ pub fn run_sm_case(id: u64, rng: &mut Rng, thorough: bool, hist: &mut Hist) -> C
     for (p, w) in mon.fails.drain(..) {
         failures.push((p, w, n));
     }
+    for w in mon.notes.drain(..) {
+        failures.push(("note-C10".into(), w, n));
+    }
     let known_coq = coq_reps(&initial);
     let table = intern_end();
     let coq = format!(
@@ -879,6 +887,14 @@ pub fn run_pool_case(id: u64, rng: &mut Rng, _thorough: bool, hist: &mut Hist) -
             5
         } else if added == 0 {
             0
+        } else if pool.iter().next().is_none() && rng.chance(2, 3) {
+            // nothing left in the pool: add another query or go on to the final polls
+            if added < 3 {
+                0
+            } else {
+                n = nev;
+                5
+            }
         } else {
             rng.weighted(&[if added < 3 { 6 } else { 0 }, 14, 4, 10, 0, 40])
         };
@@ -1185,7 +1201,20 @@ pub fn run_pool_case(id: u64, rng: &mut Rng, _thorough: bool, hist: &mut Hist) -
             break;
         }
     }
-    let _ = ambiguous;
+    // C09: every lookup hands its result to the caller: a lookup that is no longer in the pool
+    // must have been handed out
+    if !ambiguous {
+        for (qid, q) in qs.iter() {
+            if !q.returned && pool.get_mut(discv5::verif::query::QueryId(*qid)).is_none() {
+                failures.push(("C09".into(), "a lookup left the pool without its result being handed out".into(), n));
+            }
+        }
+    }
+    for q in qs.values_mut() {
+        for w in q.mon.notes.drain(..) {
+            failures.push(("note-C10".into(), w, n));
+        }
+    }
     let table = intern_end();
     let coq = format!(
         "(let T := {} in let T1 := {} in let T2 := {} in let K := fun i : N => nth (N.to_nat i) {} 0 in\n CPool {} {}\n [{}])",
